@@ -36,8 +36,53 @@ func opts(g *core.G) core.TreeOpts {
 	return o
 }
 
+func metricIndex(s string) int {
+	for i, m := range metricNames {
+		if m == s {
+			return i
+		}
+	}
+	return 0
+}
+
+// Replay re-executes the requests of a corpus / replay file on the real code.
+func Replay(c *core.Ctx, lines []string) {
+	for _, l := range lines {
+		f := strings.Split(l, "\t")
+		switch {
+		case f[0] == "C14.matrix" && len(f) >= 3:
+			n, err := core.ParseDump(f[2])
+			if err != nil {
+				panic(err)
+			}
+			doMatrix(c, false, metricIndex(f[1]), n)
+		case f[0] == "C14.cut" && len(f) >= 3:
+			n, err := core.ParseDump(f[2])
+			if err != nil {
+				panic(err)
+			}
+			thr, _ := core.ParseRat(f[1])
+			doCut(c, false, thr, n)
+		case f[0] == "C14.avg" && len(f) >= 3:
+			var ns []*core.N
+			for _, d := range strings.Split(strings.TrimSuffix(f[2], "|"), "|") {
+				n, err := core.ParseDump(d)
+				if err != nil {
+					panic(err)
+				}
+				ns = append(ns, n)
+			}
+			doAvg(c, metricIndex(f[1]), ns)
+		}
+	}
+}
+
 // Run generates the cases of C14.
 func Run(c *core.Ctx) {
+	if c.Arg != "" {
+		Replay(c, core.ReadRequests(c.Arg))
+		return
+	}
 	n := c.Scale(600, 20000)
 	for i := 0; i < n; i++ {
 		switch {
@@ -69,6 +114,10 @@ func matrixCase(c *core.Ctx, cli bool) {
 	}
 	n, _ := c.G.Tree(o)
 	metric := c.G.Intn(3)
+	doMatrix(c, cli, metric, n)
+}
+
+func doMatrix(c *core.Ctx, cli bool, metric int, n *core.N) {
 	t, err := core.Build(n)
 	if err != nil {
 		panic(err)
@@ -137,6 +186,10 @@ func avgCase(c *core.Ctx) {
 		ns = append(ns, x)
 	}
 	metric := c.G.Intn(3)
+	doAvg(c, metric, ns)
+}
+
+func doAvg(c *core.Ctx, metric int, ns []*core.N) {
 	ch := make(chan tree.Trees, len(ns))
 	for i, n := range ns {
 		t, err := core.Build(n)
@@ -187,6 +240,10 @@ func cutCase(c *core.Ctx, cli bool) {
 			thr += 1.0 / 16
 		}
 	}
+	doCut(c, cli, thr, n)
+}
+
+func doCut(c *core.Ctx, cli bool, thr float64, n *core.N) {
 	t, err := core.Build(n)
 	if err != nil {
 		panic(err)
